@@ -1,2 +1,5 @@
 import PrqlModel.Model.Target
+import PrqlModel.Model.Lex
+import PrqlModel.Lemmas.Lex
 import PrqlModel.Props.C18
+import PrqlModel.Props.C17
